@@ -22,9 +22,11 @@
 #include "llvm/ADT/Twine.h"
 
 #include <atomic>
+#include <chrono>
 #include <future>
 #include <queue>
 #include <random>
+#include <thread>
 #include <unordered_map>
 #include <vector>
 
@@ -279,6 +281,14 @@ public:
 
     for (unsigned i = 0; i != numLanes; ++i) {
       lanes[i]->join();
+    }
+
+    // Processes which released their lane are waited for on detached threads,
+    // which update the background task count of this object once the process
+    // has been reaped (and its completion has been reported). Do not go away
+    // underneath them.
+    while (backgroundTaskCount.load() != 0) {
+      std::this_thread::sleep_for(std::chrono::milliseconds(1));
     }
 
     {
